@@ -526,10 +526,12 @@ class MassBins:
 
             nbin_WD = WD_mask.sum()
 
-            # TODO fails if m_break[0] < ifmr.WD_mf.upper
             bins_WD = mbin(bins_MS.lower[WD_mask].copy(),
                            bins_MS.upper[WD_mask].copy())
-            bins_WD.upper[-1] = ifmr.WD_mf.upper
+
+            # No WD bins at all if every bin starts above the heaviest WD
+            if nbin_WD > 0:
+                bins_WD.upper[-1] = ifmr.WD_mf.upper
 
             # Black Holes
 
@@ -539,7 +541,10 @@ class MassBins:
 
             bins_BH = mbin(bins_MS.lower[BH_mask].copy(),
                            bins_MS.upper[BH_mask].copy())
-            bins_BH.lower[0] = ifmr.BH_mf.lower
+
+            # No BH bins at all if every bin ends below the lightest BH
+            if nbin_BH > 0:
+                bins_BH.lower[0] = ifmr.BH_mf.lower
 
             # Neutron Stars
 
